@@ -33,14 +33,31 @@ class Ob:
 _SEEKPOS = ("std::io::Seek::stream_position", "futures_util::io::AsyncSeekExt::stream_position", "std::io::Seek::seek", "futures_util::io::AsyncSeekExt::seek")
 
 
+def dir_writer_fns(facts):
+    """the functions that serialise a directory: associated functions of Directory that emit varints, and those of its functions that call them
+    (the public `to_writer` in front of a private serialiser, whatever that one is called and whether it takes `&self` or the entry slice)"""
+    fns = {f["path"]: f for f in facts.user_fns() if "directory::Directory" in (f.get("self_ty") or "")}
+    direct = {p: set(c["fn"] for c in calls(f["body"])) for p, f in fns.items()}
+    W = set(p for p, cs in direct.items() if any(c.endswith(("VarIntWriter::write_varint", "VarIntAsyncWriter::write_varint_async")) for c in cs))
+    changed = True
+    while changed:
+        changed = False
+        for p, cs in direct.items():
+            if p not in W and cs & W:
+                W.add(p)
+                changed = True
+    return W
+
+
 def spill_role_fns(facts):
     """the root-directory writers: local functions that take a seekable stream, return the leaf-section bytes (`Result<Vec<u8>>`) and — themselves
     or through private helpers that are not root writers of their own — write a Directory to the stream and observe/seek its position"""
     fns = {f["path"]: f for f in facts.user_fns()}
     def shape(f):
         return "Result<alloc::vec::Vec<u8>," in f["ret"] and any(absint_streamlike(p.get("ty") or "") for p in f["params"])
+    dw = dir_writer_fns(facts)
     def matches(names):
-        return any(n.startswith("directory::Directory::to_") and "writer" in n for n in names) and any(n in _SEEKPOS for n in names)
+        return any(n in dw for n in names) and any(n in _SEEKPOS for n in names)
     direct = {p: [c["fn"] for c in calls(f["body"])] for p, f in fns.items()}
     M = set(p for p, f in fns.items() if shape(f) and matches(direct[p]))
     changed = True
@@ -99,6 +116,10 @@ def role_param(fa, f, kind, nth=0):
                     out.append(("f", V("param:" + n), fld["name"]))
     return out[nth] if len(out) > nth else V("param:<no %s parameter>" % kind)
 
+DOMAIN_TYPES = ("Entry", "Directory", "Compression", "LatLng", "TileType", "Header", "PMTiles", "TileManagerTile", "FinishResult", "TileManager", "OffsetLength",
+                "MaxZError", "WriteDirsOverflowStrategy", "Error")
+
+
 class Ctx:
     """facts of one feature config + memoised analyses + role locators"""
 
@@ -142,6 +163,12 @@ class Ctx:
         pure = set()
         for f in facts.user_fns():
             p = f["path"]
+            m = re.match(r"<([\w:]+) as core::convert::From<", p)
+            if m and m.group(1).rpartition("::")[2] not in DOMAIN_TYPES and p not in anchors and p not in reach(p) and not any(self.summaries.get(p, {}).values()):
+                # a `From` impl for a helper type of the crate's own (not one of the types the rules speak about): a constructor, evaluated in place
+                ok.add(p)
+                pure.add(p)
+                continue
             if f["vis"] == "pub" or p in anchors or p in reach(p):
                 continue
             ok.add(p)
@@ -189,7 +216,9 @@ class Ctx:
             def has_deep(adt):
                 return self.has_struct_deep(f, adt)
             # archive writer / opener / walker / factories / directory codec / root writers / layout / lazy fetch / header io / store mutators / json readers
-            if any(n.startswith("header::Header::to_") and "writer" in n for n in names) and has_deep("header::Header"):
+            # (the header write itself may sit in a private helper that is handed the Header: the writer is the function that builds the Header)
+            if has_deep("header::Header") and any(n.startswith("header::Header::to_") and "writer" in n for n in self.calls_deep(f)) and \
+                    (has("header::Header") or any(n.startswith("header::Header::to_") and "writer" in n for n in names)):
                 out.add(f["path"])
             if any(n.startswith("header::Header::from_") and "reader" in n for n in names) and has_deep("pmtiles::PMTiles"):
                 out.add(f["path"])
@@ -205,7 +234,8 @@ class Ctx:
                     out.add(f["path"])
             if f["path"] in spill:
                 out.add(f["path"])
-            if has("tile_manager::FinishResult"):
+            # the layout function walks the tiles; a function that merely assembles the result struct from finished parts is a helper of it
+            if has_deep("tile_manager::FinishResult") and any(n["k"] in ("For", "While", "Loop") for n in walk(body)):
                 out.add(f["path"])
             if any(n in ("std::io::Read::read_exact", "futures_util::io::AsyncReadExt::read_exact") for n in names):
                 out.add(f["path"])
@@ -369,8 +399,10 @@ class Ctx:
         """local functions that build a `Header { .. }` and hand it to `Header::to_writer*`"""
         out = []
         for f in self.user_fns():
-            if any(c["fn"].startswith("header::Header::to_") and "writer" in c["fn"] for c in calls(f["body"])) and self.has_struct_deep(f, "header::Header"):
+            if f["path"] not in self.inlinable and f["vis"] != "pub" and any(n.startswith("header::Header::to_") and "writer" in n for n in self.calls_inl(f)) and self.has_struct_inl(f, "header::Header"):
                 out.append(f)
+            elif f["path"] not in self.inlinable and f["vis"] == "pub" and any(c["fn"].startswith("header::Header::to_") and "writer" in c["fn"] for c in calls(f["body"])) and self.has_struct_deep(f, "header::Header"):
+                out.append(f)      # (a public function that is itself the writer)
         return out
 
     def openers(self):
